@@ -67,7 +67,7 @@ def replay(doc):
     if not case:
         print(doc.get("tlc_output_tail", ""))
         return run("quick")
-    rep = lib.Report(PID, "quick", "model_checking")
+    rep = lib.Report(PID, "quick", "model_checking", evidence=False)
     with lib.Scratch("c01r") as sc:
         base = {k: case[k] for k in case if k in ("id", "kind", "n", "pairs", "seq", "db", "instrands", "headers")}
         rec = {"bp": ss._rec_bp_c01, "db": ss.record_db, "ms": ss.record_ms}[case["kind"]](base)
